@@ -119,7 +119,7 @@ def liveness_part(ctx, observations, stats):
     imports = "From Verif Require Import Base.Word256 C14.Venom C14.Liveness.\n" + "\n".join(defs) + "\n"
     # shard so that big functions are spread over a few coqc processes
     outs = []
-    n_shards = 3
+    n_shards = 3 if ctx.tier == "quick" else 8
     import concurrent.futures as cf
     chunks = [list(range(i, len(exprs), n_shards)) for i in range(n_shards)]
 
@@ -292,7 +292,7 @@ def _copy_cert(fb, fa, namer):
 
 def _classify_reject(kind, fb, fa):
     """a rejected pair outside the validator's domain is `unsupported` (reported as a count, never as a violation)"""
-    from vlib.c14_pass_export import SIMPLE, ENV
+    from vlib.c14_pass_export import MODELLED
     if kind == "ruv":
         def multiset(fn):
             d = {}
@@ -304,7 +304,7 @@ def _classify_reject(kind, fb, fa):
         for bb in fb.get_basic_blocks():
             for i in bb.instructions:
                 k = str(i).strip()
-                if mb.get(k, 0) > ma.get(k, 0) and i.opcode not in SIMPLE + ENV + ["phi", "alloca", "offset", "initial_fmp"]:
+                if mb.get(k, 0) > ma.get(k, 0) and i.opcode not in MODELLED + ["offset", "initial_fmp"]:
                     return "unsupported"       # an out-of-core instruction was removed
         return "rejected"
     if kind == "copy":
